@@ -1,7 +1,8 @@
 ------------------------------ MODULE Trace_NewInit ------------------------------
 (* C20, code -> spec.  Each record describes one construction executed on the real cffi:
      T, isptr, init     the type (layout as cffi reports it), 'X *' or array form, the initializer tree
-     alloc              the size direct_newp requested from the allocator (observed with ffi.new_allocator)
+     alloc, guard       the size direct_newp requested from the allocator (observed with ffi.new_allocator);
+                        guard = the bytes after it were left alone
      sizeof             ffi.sizeof(p[0]) (structs) / ffi.sizeof(a) (arrays) of the ffi.new result, -1 if n/a
      bytes1, err1       ffi.buffer of ffi.new(T, init)  (err1 = exception class or "")
      haslaw, bytes2, err2   ffi.buffer after p = ffi.new(T [sized]); p[0] = init
@@ -16,6 +17,7 @@ Verdict(r) ==
   ELSE LET cl == Claims(r.T, 0, r.init) IN
        IF ~NoOverlap(cl) THEN <<>>                       \* two overlapping union members named: order-dependent
        ELSE IF r.err1 # "" THEN <<"new.raised">>
+       ELSE IF ~r.guard THEN <<"new.fits">>             \* wrote past the size it asked the allocator for
        ELSE Sel(FitsG(r.T, r.init, r.alloc) /\ Len(r.bytes1) <= r.alloc, "new.fits")
             \o Sel(r.sizeof >= 0 => SizeofG(r.sizeof, r.alloc), "new.sizeof")
             \o Sel(Len(r.bytes1) >= Extent(r.T, r.init) /\ r.bytes1 = Mem(Len(r.bytes1), cl), "new.bytes")
@@ -25,6 +27,7 @@ Diverge(r) ==
   LET m == DirectNewp("faithful", r.T, r.init, r.isptr) IN
   IF m.err # r.err1 THEN "error class: model " \o m.err
   ELSE IF m.err # "" THEN ""
+  ELSE IF ~r.guard THEN "wrote past the allocation"
   ELSE IF m.size # r.alloc THEN "allocation size"
   ELSE IF m.ovf THEN "model writes past the allocation"
   ELSE IF SubSeq(m.mem, 1, Len(r.bytes1)) # r.bytes1 THEN "bytes"
